@@ -213,6 +213,22 @@ def reljoin_core():
     return out
 
 
+def generic_core():
+    """the generic engine: arrays, strings, dicts, byte arrays, offset / sparse arrays and Relations with an @ column against each
+    other and against plain Relations, under every operator"""
+    ops = [X.arr([N(5), N(6)]), X.arr([N(5), None, N(7)]), X.arr([N(1)], 2), X.string("ab"), X.dict_([(N(0), N(5)), (N(3), N(6))]),
+           X.bytes_([65, 66]), X.rel(["@", "x"], [[N(0), N(5)], [N(1), N(9)]]), X.rel(["x"], [[N(5)], [N(6)]]),
+           X.rel(["@item", "y"], [[N(5), N(1)], [N(7), N(2)]]), X.rel(["@"], [[N(0)], [N(3)]])]
+    out = []
+    for i, a in enumerate(ops):
+        for j, b in enumerate(ops):
+            if i >= 6 and j >= 6:
+                continue          # Relation x Relation: the positional engine
+            for op in JOINS:
+                out.append(("generic core", op, a, b))
+    return out
+
+
 def reljoin_random(rng, n):
     out = []
     AL = ["a", "b", "c", "d", "@", "@item", "x"]
@@ -287,13 +303,28 @@ def run_reljoin(run, vh, items, id0=0):
     for i, (label, op, a, b) in enumerate(items):
         reqs.append({"id": id0 + i, "label": label, "op": op, "a": a if isinstance(a, str) else X.src(a), "b": b if isinstance(b, str) else X.src(b)})
     outs, rc, err = run_harness(vh, "reljoin", reqs)
-    cases, skipped, hist = [], {}, {}
+    cases, skipped, hist, gcases, ghist = [], {}, {}, [], {}
     for q in reqs:
         o = outs.get(q["id"]) or {"st": "missing"}
         rec = {"case": {"label": q["label"], "reljoin": {"a": q["a"], "b": q["b"], "op": q["op"]}, "src": "(%s) %s (%s)" % (q["a"], q["op"], q["b"])}, "observed": o}
         st = o.get("st")
         if st == "skip":
             skipped[o.get("why", "?")[:60]] = skipped.get(o.get("why", "?")[:60], 0) + 1
+            continue
+        if o.get("generic"):
+            # the generic engine: operands by their members; an error is an observable (not a relation)
+            if st not in ("ok", "err"):
+                rec["oracle"] = "a join is specified (Properties/C04.v) but the implementation does not answer (%s)" % st
+                run.classify_failure("sugar-tuple-ill-typed" if o.get("site") == "rel:NewTuple" else None, rec)
+                continue
+            ga, gb = val_term(o["ga"]), val_term(o["gb"])
+            gv = "None" if st == "err" else (val_term(o["res"]["val"]) if evalcheck.counts_ok(o["res"]["val"]) else None)
+            if ga is None or gb is None or gv is None:
+                skipped["value outside the model"] = skipped.get("value outside the model", 0) + 1
+                continue
+            gcases.append((q, rec, "{| g_id := %d; g_op := %s; g_a := %s; g_b := %s; g_obs := %s |}" % (
+                q["id"], X.JOINOPS[q["op"]], ga, gb, gv if gv == "None" else "(Some %s)" % gv)))
+            ghist[o["generic"]] = ghist.get(o["generic"], 0) + 1
             continue
         if st != "ok":
             rec["oracle"] = "a join of two relations is specified (Properties/C04.v) but the implementation does not answer (%s)" % st
@@ -343,7 +374,36 @@ def run_reljoin(run, vh, items, id0=0):
                     run.classify_failure(None, rec)
                 else:
                     run.corr_breaks.append({"what": "C04_positional_join_refines_spec no longer describes the implementation: " + RJ_TEXT.get(code, str(code)), **rec})
-    return {"reljoin_cases": len(items), "reljoin_compared": len(cases), "reljoin_agreed": agreed, "reljoin_skipped": skipped,
+    gagreed = 0
+
+    def dog(ic):
+        k, chunk = ic
+        body = ["From Arrai Require Import Base.Val Spec.SetAlg Eval.Interp Rep.RelJoin Rep.GenJoin Check.C04Check.",
+                "Definition cases : list gcase := [", ";\n".join("  " + c[2] for c in chunk),
+                "].\nDefinition R := Eval vm_compute in reportG cases.\nPrint R."]
+        rc2, so, se = coq_eval("c04_gj_%d_%d" % (os.getpid(), k), "\n".join(body))
+        return coq_report(so, "R"), se
+
+    gchunks = [gcases[i:i + 300] for i in range(0, len(gcases), 300)]
+    with concurrent.futures.ThreadPoolExecutor(max_workers=8) as ex:
+        for (rep, se), chunk in zip(ex.map(dog, enumerate(gchunks)), gchunks):
+            if rep is None:
+                run.corr_breaks.append({"what": "the transcription of GenericJoin could not be evaluated (Check/C04Check.v)", "log": se[-1500:]})
+                continue
+            byid = {c[0]["id"]: c for c in chunk}
+            gagreed += len(chunk) - len(rep)
+            for cid, code in rep:
+                q, rec, _ = byid[cid]
+                if code >= 100:
+                    rec["oracle"] = "generic join over a sequence holding two items at one index (code %d)" % (code - 100)
+                    run.classify_failure("seq-collision", rec)
+                elif code == 1:
+                    rec["oracle"] = "the result of the join (generic engine) is not the set of combinations of agreeing members of the operands (join_data; Properties/C04.v)"
+                    run.classify_failure(None, rec)
+                else:
+                    run.corr_breaks.append({"what": "C04_generic_join_is_the_specification_join no longer describes the implementation: " + {3: "the transcription of GenericJoin (Rep/GenJoin.v) hands a nil tuple to the set builder", 4: "the transcription's result differs from the implementation's"}.get(code, str(code)), **rec})
+    return {"generic_compared": len(gcases), "generic_agreed": gagreed, "generic_operand_histogram": ghist,
+            "reljoin_cases": len(items), "reljoin_compared": len(cases), "reljoin_agreed": agreed, "reljoin_skipped": skipped,
             "reljoin_strategy_histogram": modes, "reljoin_layout_histogram": hist}
 
 
@@ -358,7 +418,7 @@ def main(tier, seed, replay=None):
             rj_items = [("replay", rc0["op"], rc0["a"], rc0["b"])]
     cases = ([] if rj_items else evalcheck.replay_cases(replay)) if replay else gen_cases(rng, tier)
     if not replay:
-        rj_items = reljoin_core() + reljoin_random(random.Random(seed * 7919 + 4), 300 if tier == "quick" else 4000)
+        rj_items = reljoin_core() + generic_core() + reljoin_random(random.Random(seed * 7919 + 4), 300 if tier == "quick" else 4000)
     rj_cov = run_reljoin(run, vh, rj_items) if rj_items else {}
     outs, codes, fails = evalcheck.evaluate(vh, cases)
     evalcheck.judge(run, cases, outs, codes, fails,
@@ -372,6 +432,6 @@ def main(tier, seed, replay=None):
                     + ("; thorough adds every heading partition (left-only x common x right-only, both stored orders) x 8 operators" if tier == "thorough" else ""),
                     {"operator_histogram": ops, "exhaustive": False})
     run.cov.update(rj_cov)
-    run.cov["rule"] += "; positional engine stream: pairs of Relations (stored heading in any column order, obtained by chains of joins; heading pairs disjoint / overlapping / nested / equal; @-names incl. the re-sugared (@, @item|@char|@byte|@value) results) x 8 operators, the transcription Rep/RelJoin.v run in Coq on the stored layout read off the operands (AttrsName(), projector, rows) and compared with the implementation's result on denotation, Count(), representation class and stored heading"
+    run.cov["rule"] += "; positional engine stream: pairs of Relations (stored heading in any column order, obtained by chains of joins; heading pairs disjoint / overlapping / nested / equal; @-names incl. the re-sugared (@, @item|@char|@byte|@value) results) x 8 operators, the transcription Rep/RelJoin.v run in Coq on the stored layout read off the operands (AttrsName(), projector, rows) and compared with the implementation's result on denotation, Count(), representation class and stored heading; generic engine stream: arrays (dense, sparse, offset), strings, dicts, byte arrays and Relations with an @ column against each other and against plain Relations x 8 operators, the transcription Rep/GenJoin.v run in Coq on the members of both operands and compared with the implementation's value or error"
     run.assumptions = ["rank keys are numbers (other keys are ordered by the Go order, see C06)"]
     return run.finish(proof)
